@@ -70,6 +70,29 @@ def run(chk):
                 except OSError:
                     chk.count("port_reuse_not_possible")
                 continue
+            if case.get("caller") is not None and rng.chance(1, 8):
+                # two requests on one kept-alive connection with the policy replaced in between: each is judged under the
+                # policy in force when it arrives
+                o1 = runner.run_case(case, keep_conn=True)
+                conn = o1["conn"]
+                o1["conn"] = None
+                if o1["resp"] is not None and conn is not None and o1["resp"]["status"] < 400 and \
+                        (e2e.hget(o1["resp"]["headers"], b"connection") or b"").lower() != b"close":
+                    case2 = pipegen.gen_case(rng, callers, st)
+                    case2["caller"], case2["dest"], case2["label"] = case["caller"], case["dest"], case.get("label")
+                    case2["req"]["target"] = case["req"]["target"] if rng.chance(1, 2) else case2["req"]["target"]
+                    chk.count("policy_replaced_on_open_connection")
+                    try:
+                        o2 = runner.run_case(case2, conn=conn)
+                        if o2["resp"] is None and not o2["recs"]:
+                            # the listener had already closed the kept connection: nothing was observed
+                            runner.observations.remove(o2)
+                            chk.count("kept_connection_was_closed")
+                    except OSError:
+                        pass
+                if conn is not None:
+                    conn.close()
+                continue
             runner.run_case(case)
         runner.finish(oracle)
         if stack.panics():
